@@ -145,6 +145,10 @@ pub fn join(p: &[String]) -> String {
 
 fn has_cfg_test(attrs: &[Attribute]) -> bool {
     attrs.iter().any(|a| {
+        // `#[test]` functions outside a `#[cfg(test)]` module are test code too (categorical.rs has two)
+        if a.path().is_ident("test") {
+            return true;
+        }
         if a.path().is_ident("cfg") {
             let s = quote::ToTokens::to_token_stream(a).to_string();
             s.contains("test")
